@@ -45,6 +45,10 @@ structure HCand where
   /-- entries the processing loop has already earned (its action has been placed) but not yet logged: a log
   line is written AFTER the action it reports, so other goroutines' lines can slip in between -/
   owed : List String
+  /-- the cycle has been announced (`flush-start` raised, the limiter's `Capacity()` read) but the loop has not yet looked
+  at the buffer (`top()`): those lines are written BEFORE the action, so another goroutine's Enqueue can still land
+  in front of the walk. `some allowance` until the `cycleBegin` label is placed. -/
+  pendingBegin : Option Nat := none
 deriving DecidableEq, Hashable
 
 def costOf (sc : HScn) (cd : HCand) (obj : Nat) : Nat :=
@@ -97,8 +101,11 @@ def loopVisible (sc : HScn) (cd : HCand) : List HCand :=
   fire .takePause (fun _ => [s!"ev:pause:{sc.pauseMs}"]) ++
   fire .wake (fun _ => ["ev:resume:0"]) ++
   (if v2 || sc.c.limited then
-     fire (.cycleBegin (if sc.c.limited then allow else 0))
-       (fun _ => (if v2 then ["ev:flush-start:0"] else []) ++ (if sc.c.limited then [s!"limcap:{cd.cap}"] else []))
+     let a := if sc.c.limited then allow else 0
+     match step sc.c s (.cycleBegin a) with
+     | some _ => [{ cd with owed := (if v2 then ["ev:flush-start:0"] else []) ++ (if sc.c.limited then [s!"limcap:{cd.cap}"] else []),
+                            pendingBegin := some a }]
+     | none => []
    else []) ++
   (match step sc.c s .cycleStep with
    | some s' => if s'.nextBatch == s.nextBatch + 1 then
@@ -129,6 +136,9 @@ def hiddenSucc (sc : HScn) (cd : HCand) : List HCand :=
   -- the processing loop: one action at a time; while it still owes log lines it does nothing else
   let loopSteps :=
     if !cd.owed.isEmpty then [] else
+    match cd.pendingBegin with
+    | some a => ((stepC sc cd (.cycleBegin a)).map fun c => { c with pendingBegin := none }).toList
+    | none =>
       let h4 := (stepC sc cd .takeFlushTick).toList
       let h5 := if sc.c.limited then [] else (stepC sc cd .takeCap).toList
       let h6 := if sc.c.gen == .v1 && !sc.c.limited then (stepC sc cd (.cycleBegin 0)).toList else []
@@ -182,7 +192,7 @@ def quiescent (sc : HScn) (cd : HCand) : Bool :=
    | _ => true) &&
   (!tickersRunning s || (decide (s.now < s.nextF) && decide (s.now < s.nextC) && decide (s.now < s.nextA))) &&
   (unfinished s).all (fun b => !b.cbDone && decide (s.now < b.deadline)) &&
-  cd.pendingPause == 0 && cd.owed.isEmpty
+  cd.pendingPause == 0 && cd.owed.isEmpty && cd.pendingBegin.isNone
 
 def nextDeadline (s : St) : Option Nat :=
   let ds := (if tickersRunning s then [s.nextF, s.nextC, s.nextA] else []) ++
